@@ -583,4 +583,76 @@ theorem descDisjoint_of_B (ps : List Part) (h : descDisjointB ps = true) : descD
       simp only [descDisjointB, Bool.and_eq_true, decide_eq_true_eq] at h
       exact ⟨h.1, ih h.2⟩
 
+/-! ### standard-order genes are never refused by the Feature constructor -/
+
+theorem hasDup_cons_false (x : Int) (xs : List Int) (h1 : x ∉ xs) (h2 : hasDup xs = false) : hasDup (x :: xs) = false := by
+  simp [hasDup, h1, h2]
+
+/-- forward walk over exons listed upwards without overlap: the new parts end at strictly increasing coordinates -/
+theorem subParts_asc_nodup (st : Strand) : ∀ (ps : List Part) (off s e : Int),
+    (∀ p ∈ ps, p.lo < p.hi) → ascDisjoint ps →
+    hasDup ((subParts false st ps off s e).map (·.hi)) = false := by
+  intro ps
+  induction ps with
+  | nil => intro off s e _ _; simp [subParts, hasDup]
+  | cons p rest ih =>
+    intro off s e hpos hasc
+    have hp := hpos p (by simp)
+    have hrest : ∀ q ∈ rest, q.lo < q.hi := fun q hq => hpos q (by simp [hq])
+    have hasc' : ascDisjoint rest := by
+      cases rest with
+      | nil => trivial
+      | cons q r => exact hasc.2
+    have hle : ∀ q ∈ rest, (q.lo : Int) < q.hi := hrest
+    have IH := ih (off + p.len) s e hrest hasc'
+    -- every later new part ends beyond this exon
+    have hlater : ∀ q' ∈ subParts false st rest (off + p.len) s e, p.hi < q'.hi := by
+      intro q' hq'
+      obtain ⟨p', hp', h1, h2, _, _⟩ := subParts_inside false st rest (off + p.len) s e
+        (fun x hx => Int.le_of_lt (hrest x hx)) q' hq'
+      have := ascDisjoint_lo_le p rest hpos hasc p' hp'
+      omega
+    simp only [subParts]
+    by_cases hc : max (s - off) 0 < min (e - off) p.len
+    · simp only [hc, if_true]
+      have hq : (slicePart false st p (max (s - off) 0) (min (e - off) p.len)).hi ≤ p.hi := by
+        simp only [slicePart, Bool.false_eq_true, if_false, Part.len]; omega
+      split
+      · simp [hasDup]
+      · simp only [List.singleton_append, List.map_cons]
+        apply hasDup_cons_false _ _ _ IH
+        intro hmem
+        obtain ⟨q', hq', heq⟩ := List.mem_map.mp hmem
+        have := hlater q' hq'
+        omega
+    · simp only [hc, if_false, List.nil_append]
+      split
+      · simp [hasDup]
+      · exact IH
+
+theorem locOfNewParts_parts (ps : List Part) (r : Loc) (h : locOfNewParts ps = .ok r) : r.parts = ps := by
+  match ps, h with
+  | [p], h => simp [locOfNewParts] at h; subst h; rfl
+  | p :: q :: rest, h => simp [locOfNewParts] at h; subst h; rfl
+
+theorem subLocationFromOffsets_parts (l r : Loc) (s e : Int) (h : subLocationFromOffsets l s e = .ok r) :
+    r.parts = subParts (isRev l) l.strand l.parts 0 s e := by
+  unfold subLocationFromOffsets at h
+  split at h
+  · cases h
+  · exact locOfNewParts_parts _ r h
+
+/-- a forward gene in the standard exon order: no section of it is ever refused by the Feature constructor -/
+theorem offsets_forward_standard_representable (l : Loc) (hwf : geneWF l = true) (hnr : isRev l = false)
+    (hasc : ascDisjointB l.parts = true) (a b : Nat) (hab : a < b) (hb : (b : Int) ≤ l.len) :
+    ∃ r, subLocationFromOffsets l a b = .ok r ∧ bases r = sliceL (bases l) a b ∧ containsOverlappingExons r = false := by
+  obtain ⟨r, hr, hbs, _⟩ := subLocationFromOffsets_slice l hwf a b hab hb
+  obtain ⟨_, hparts⟩ := (geneWF_iff l).mp hwf
+  refine ⟨r, hr, hbs, ?_⟩
+  have hp := subLocationFromOffsets_parts l r a b hr
+  have := subParts_asc_nodup l.strand l.parts 0 a b (fun p hp => (hparts p hp).1) (ascDisjoint_of_B _ hasc)
+  rw [hnr] at hp
+  simp only [containsOverlappingExons, hp, this]
+  split <;> rfl
+
 end ASV.ProtDna
